@@ -172,6 +172,11 @@ func (fx *effects) of(fn *ssa.Function) *WriteSet {
 		delete(fx.inprg, fn)
 		fx.memo[fn] = w
 	}()
+	if fc := fx.C.Funcs[funcKey(fn)]; fc != nil {
+		for _, g := range fc.Ghosts {
+			w.Fams["ghost:"+g.Map] = I64
+		}
+	}
 	if fn.Blocks == nil {
 		w.add(fx.external(fn, nil))
 		return w
